@@ -552,7 +552,9 @@ class BMSMap(Map[BMSNoteList, BMSHitList, BMSHoldList, BMSBpmList], BMSMapMeta):
         df = df.drop(["den"], axis=1)
 
         # Generate the lines here
-        df = df.sort_values("channel")
+        # Stable, so that of 2 objects on the same slot (e.g. 2 tempo points at
+        # the same time) the later one is the one written
+        df = df.sort_values("channel", kind="stable")
         dfgs = df.groupby(["measure", "channel", "new_den"])
         lines = []
         for (measure, channel, den), dfg in dfgs:
